@@ -15,7 +15,7 @@ txt = {k: p[k] for k in ("id", "title", "statement", "quantifier", "why_tests_ca
 print(f"""You are helping to evaluate a verification effort for the Rust workspace p2panda (a modular p2p toolkit).
 Your job: play the role of a developer who introduces a *subtle regression*.
 
-You have your own scratch git worktree of the repository at {wt} (Cargo.lock is present, `target/` is a warm build cache; work ONLY inside that directory and inside {out}; never touch /repo or /verif; the machine is offline, always pass --offline to cargo).
+You have your own scratch git worktree of the repository at {wt} (Cargo.lock and .cargo/config.toml are present as build infrastructure — leave them alone and never include them in a diff; there is no build cache yet, so the first build takes several minutes; disk space is tight: do NOT create additional target directories or copies of the repository; work ONLY inside that directory and inside {out}; never touch /repo or /verif; the machine is offline, always pass --offline to cargo).
 
 Here is a semantic property that the code base is supposed to satisfy:
 
@@ -33,6 +33,6 @@ Task
    - patch.diff : `git diff` of ONLY the breaking source change (no demonstration code in it), applicable with `git apply` at the repo root on the unmodified tree;
    - demo.diff  : a separate `git diff`-style patch that adds ONLY the demonstration test/program (applicable on the unmodified tree as well as on the patched tree);
    - notes.md   : which clause of the property is broken, what exactly is needed for it to manifest, the exact commands you ran (build, existing suite, demonstration with and without the change) and their outcomes.
-   Leave the worktree in the *unmodified* state at the end (git checkout -- . ; remove untracked demo files), but keep the target/ dir.
+   Leave the worktree in the *unmodified* state at the end (git checkout -- . ; remove untracked demo files), but keep the target/ dir, Cargo.lock and .cargo/.
 
 Be economical: the full test run takes 1-2 minutes once built; build only what you need while iterating (e.g. `cargo test -p <crate> --offline <filter>`). If your first idea is caught by the existing tests, pick another one. Report back a 5-line summary (what you changed, where, how it manifests, and whether all confirmations succeeded).""")
